@@ -27,7 +27,8 @@ Not3(v) == CASE v = "T" -> "F" [] v = "F" -> "T" [] OTHER -> "U"
 And3(v, w) == IF v = "F" \/ w = "F" THEN "F" ELSE IF v = "T" /\ w = "T" THEN "T" ELSE "U"
 Or3(v, w) == IF v = "T" \/ w = "T" THEN "T" ELSE IF v = "F" /\ w = "F" THEN "F" ELSE "U"
 B3(x) == IF x THEN "T" ELSE "F"
-Atoms == {"a=0", "a=1", "a<>0", "anull", "anotnull", "b=x", "true", "false", "a=null", "b<>x"}
+\* eqnull_bx: EQUAL_NULL(b, 'x'); eqnull_an: EQUAL_NULL(a, NULL) - NULL-safe equality: TRUE or FALSE, never unknown
+Atoms == {"a=0", "a=1", "a<>0", "anull", "anotnull", "b=x", "true", "false", "a=null", "b<>x", "eqnull_bx", "eqnull_an"}
 Atom(p, row) ==
   LET a == row[1]  b == row[2] IN
   CASE p = "a=0"      -> IF a = NULLI THEN "U" ELSE B3(a = 0)
@@ -40,6 +41,8 @@ Atom(p, row) ==
     [] p = "true"     -> "T"
     [] p = "false"    -> "F"
     [] p = "a=null"   -> "U"
+    [] p = "eqnull_bx" -> B3(b = "x")
+    [] p = "eqnull_an" -> B3(a = NULLI)
 \* predicates: [t |-> "atom", p] | [t |-> "not", x] | [t |-> "and"/"or", x, y]
 RECURSIVE Eval(_, _)
 Eval(pr, row) ==
@@ -107,7 +110,7 @@ Steps0(st, op, D) ==
          LET s2 == [st EXCEPT !.t = EmptyBag] IN {R(s2, Obs("ok", <<>>, <<>>, 0, s2))}
     [] op.k = "ddl" ->
          \* DDL returns the Snowflake status message naming the (folded) object; rowcount is that of the one status row
-         LET msg == CASE op.what = "createtable"  -> "Table " \o op.name \o " successfully created."
+         LET msg == CASE op.what \in {"createtable", "createtable_cmt"}  -> "Table " \o op.name \o " successfully created."
                       [] op.what = "createview"   -> "View " \o op.name \o " successfully created."
                       [] op.what = "createschema" -> "Schema " \o op.name \o " successfully created."
                       [] op.what \in {"droptable", "dropview", "dropschema"} -> op.name \o " successfully dropped."
@@ -126,12 +129,12 @@ InsRows == IF InsSel = "few" THEN {<< <<0, "x">> >>, << <<NULLI, NULLS>>, <<1, "
 Preds == IF PredSet = "atoms" THEN [t : {"atom"}, p : Atoms]
          ELSE LET A == [t : {"atom"}, p : Atoms] IN
               A \cup [t : {"not"}, x : A] \cup [t : {"and", "or"}, x : A, y : A]
-              \cup [t : {"not"}, x : [t : {"and", "or"}, x : [t : {"atom"}, p : {"a=0", "anull"}], y : [t : {"atom"}, p : {"b=x", "a=null"}]]]
+              \cup [t : {"not"}, x : [t : {"and", "or"}, x : [t : {"atom"}, p : {"a=0", "anull"}], y : [t : {"atom"}, p : {"b=x", "a=null", "eqnull_bx"}]]]
 RowSet == {RowKinds[j] : j \in 1..NK}
 Contents == {q \in SeqsUpTo(RowSet, MaxRows) : \A j \in 1..(Len(q) - 1) : KindOf(q[j]) <= KindOf(q[j + 1])}
 \* bystander / INSERT ... SELECT source contents: with a duplicate row and NULLs in both columns
 UContents == {<< <<NULLI, "x">>, <<0, "x">>, <<0, "x">> >>, << <<0, NULLS>>, <<1, "x">> >>}
-DdlOps == [k : {"ddl"}, what : {"createtable", "createview", "droptable", "dropview"}, q : 1..3, sp : {"lower", "upper", "quoted"}]
+DdlOps == [k : {"ddl"}, what : {"createtable", "createtable_cmt", "createview", "droptable", "dropview"}, q : 1..3, sp : {"lower", "upper", "quoted"}]
           \cup [k : {"ddl"}, what : {"createschema", "dropschema"}, q : 2..3, sp : {"lower", "upper", "quoted"}]
           \cup [k : {"ddl"}, what : {"addcolumn", "commenton", "setcomment"}, q : 1..3, sp : {"lower"}]
 NameOf(sp) == IF sp = "quoted" THEN "My obj" ELSE "OBJ"
